@@ -53,7 +53,8 @@ def analyse(repo: str, props: list[str]) -> dict[str, list[dict]]:
         ck = Check(p, prog)
         try:
             mod.run(ck)
-            res[p] = [o.as_dict() for o in ck.obs if not o.ok]
+            known = {(k["property"], k["rule"], k["key"]) for k in json.loads((VERIF / "known_findings.json").read_text()).get("open", [])}
+            res[p] = [o.as_dict() for o in ck.obs if not o.ok and (p, o.rule, o.key) not in known]
             if not res[p]:
                 for rule, minimum in ck.floors.items():
                     n = sum(1 for o in ck.obs if o.rule == rule)
@@ -102,7 +103,7 @@ def apply_variant(v: dict, root: str, repo: str) -> None:
         if r.returncode != 0:
             raise Stale(f"cannot revert {v['revert']}: {r.stdout[-300:]}")
     if "patch" in v:
-        r = subprocess.run(["patch", "-p1", "-s", "--no-backup-if-mismatch"], input=open(v["patch"]).read(), text=True,
+        r = subprocess.run(["patch", "-p1", "-s", "-F", "3", "--no-backup-if-mismatch"], input=open(v["patch"]).read(), text=True,
                            cwd=root, capture_output=True)
         if r.returncode != 0:
             raise Stale(f"cannot apply {v['patch']}: {r.stdout[-300:]}")
@@ -162,6 +163,8 @@ def corpus(repo: str) -> list[dict]:
         parts = line.split()
         prop = parts[1].split("=")[1]
         commit = parts[2]
+        if commit in getattr(sv, "MANUAL_REVERTS", ()):
+            continue  # reverting by patch is ambiguous after later commits; an explicit variant re-introduces the defect
         rules = [w.strip("();,") for w in line.replace(",", " ").split() if w.strip("();,").startswith("C") and "-" in w]
         vs.append({"id": f"R-{commit}", "kind": "break", "revert": commit, "rules": rules or [prop],
                    "what": "revert of fix commit: " + " ".join(parts[3:])[:100]})
